@@ -4,6 +4,7 @@ import build
 
 WRAP = "-Wl,--wrap=malloc -Wl,--wrap=calloc -Wl,--wrap=realloc -Wl,--wrap=free -Wl,--wrap=strdup -Wl,--wrap=fopen -Wl,--wrap=fdopen -Wl,--wrap=fclose"
 runner.EXPLORER_KW['hist_explore'] = {'extra_ld': WRAP}
+from props.C16 import WRAP as WRAP_WALK      # noqa: E402 (also registers how arc_walk is linked, for replays)
 
 
 def run(ctx):
@@ -16,7 +17,6 @@ def run(ctx):
     t = build.ensure_explorer("hist_explore", "tsan", extra_ld=WRAP)
     ctx.run_space(t, "threads", ["free=1"], cpu_limit=600, shards=4, env={"TSAN_OPTIONS": "exitcode=88:halt_on_error=1"})
     # readers of different stream kinds one after another in one process (file, pipe, callbacks; then the file again)
-    from props.C16 import WRAP as WRAP_WALK
     w = build.ensure_explorer("arc_walk", "asan", extra_ld=WRAP_WALK)
     ctx.run_space(w, "kinds", ["prop=15"], cpu_limit=60)
     ctx.assumptions += ["reference reader model of DESIGN.md appendix C (member table from the archive builder; directory stack; deferred list strictly-longer-first, LIFO among equals); extraction results are predicted from the state of the per-execution sandbox directory observed before the call"]
